@@ -5,3 +5,4 @@ import DDProofs.Inv
 import DDProofs.FindOrAdd
 import DDProofs.Ite
 import DDProofs.ApplyProofs
+import DDProofs.SatProofs
